@@ -13,6 +13,7 @@
 #include <pthread.h>
 #include "qlibc.h"
 #include "vfc.h"
+#include <sys/resource.h>
 #include "ref_hash.h"
 #ifdef __SANITIZE_ADDRESS__
 #include <sanitizer/asan_interface.h>
@@ -154,6 +155,15 @@ static void file_ranges(long caseno) {
             if (!r) { vf_viol("C18", "md5_file-failed", "qhashmd5_file failed for offset %ld length %zd of a %zu-byte file (errno %d)", (long)off, nb, fs, errno); continue; }
             ref_md5(content + off, eff, want);
             if (memcmp(got, want, 16)) vf_viol("C18", "wrong-hash:qhashmd5_file", "digest of range (%ld,%zd) of a %zu-byte file differs from the reference", (long)off, nb, fs);
+#if !defined(__SANITIZE_ADDRESS__)
+            /* the same range with the address space of the process exhausted (RLIMIT_AS at 4 KiB: mmap() and any larger malloc() fail; the stack was grown
+             * beforehand): the call may refuse, but a digest it delivers is that of exactly the requested bytes. Not under ASan, whose run-time maps memory itself. */
+            { volatile char grow[192 * 1024]; grow[0] = 1; grow[sizeof grow - 1] = 1;
+              struct rlimit old, lim; getrlimit(RLIMIT_AS, &old); lim = old; lim.rlim_cur = 4096; memset(got, 0, 16);
+              setrlimit(RLIMIT_AS, &lim); bool r2 = qhashmd5_file(path, off, nb, got); setrlimit(RLIMIT_AS, &old);
+              vf_count(r2 ? "file_ranges_digested_without_address_space" : "file_ranges_refused_without_address_space", 1);
+              if (r2 && memcmp(got, want, 16)) vf_viol("C18", "wrong-hash:qhashmd5_file:no-address-space", "with the address space exhausted (mmap fails) the digest of range (%ld,%zd) of a %zu-byte file differs from the reference", (long)off, nb, fs); }
+#endif
         }
         hm_free(content);
     }
